@@ -81,7 +81,7 @@ ALL_INVS = ["Agree", "PrepareFailurePropagates", "NoDrift", "OutputClean", "Fixe
             "MappingsAgree", "MappingsIdempotent", "AllowsAgree"]
 
 
-def profiles_mc(chk, name, roles, maxlen, profs, ops, instances=(0,), invariants=ALL_INVS, forms=False, workers=6, timeout=2400):
+def profiles_mc(chk, name, roles, maxlen, profs, ops, instances=(0,), invariants=ALL_INVS, forms=True, workers=6, timeout=2400):
     """MC_Profiles over a generated alphabet: TLC checks the invariants on every string, emits every
     behaviour, the harness replays them into the real API"""
     import universe
@@ -250,7 +250,7 @@ def C03(chk):
                {"MaxLen": n - 1 if q else n, "Rules": tla_set(["katakana", "arabic_indic", "ext_arabic_indic", "middle_dot"])}, CTX_INVS, insts)
     generic_mc(chk, "MC_Context", "neighbours", ["keraia", "grk", "GRK", "geresh", "heb", "hpt", "a", "l", "mdot"],
                {"MaxLen": n - 1 if q else n, "Rules": tla_set(["keraia", "hebrew", "middle_dot", "zwj"])}, CTX_INVS, insts)
-    apply_l1(chk, ["reg", "vir", "greek", "hebrew", "kana", "ld", "rd"], nontrivial_key="ctx")
+    apply_l1(chk, ["reg", "vir", "greek", "hebrew", "kana", "ld", "rd", "md", "aidx", "eaidx", "own"], nontrivial_key="ctx")
     l3_run(chk, "context", strings=500 if q else 6000, per_string=4, kinds=["ctx", "ctx", "ctx", "allows"])
     chk.cov["exhaustive"] = True
     chk.cov["rule"] = ("every label of length <= %d over three generated alphabets (joiners with L/D/R/T/U joining types and a virama; "
@@ -280,7 +280,7 @@ def C02(chk):
                {"MaxLen": n, "Rules": "{}"}, CTX_INVS, insts)
     generic_mc(chk, "MC_StringClass", "user-class-digits", ["aid", "eaid", "a", "mdot", "l", "kmdot", "hira"],
                {"MaxLen": 4 if q else 5, "FreeSyms": lambda ch: "{%d, %d}" % (ch["eaid"], ch["kmdot"])}, sc_invs, (0,))
-    apply_l1(chk, ["reg", "id", "ff", "vir", "greek", "hebrew", "kana", "ld", "rd"], nontrivial_key="ctx")
+    apply_l1(chk, ["reg", "id", "ff", "vir", "greek", "hebrew", "kana", "ld", "rd", "md", "aidx", "eaidx", "own"], nontrivial_key="ctx")
     l3_run(chk, "allows", strings=600 if q else 8000, per_string=2, kinds=["allows"])
     chk.cov["exhaustive"] = True
     chk.cov["rule"] = ("user-supplied classes: every assignment of the 7 property values to %d free multi-byte symbols x every label of "
